@@ -11,7 +11,9 @@ P("C30",
   level_text="Theorems: c30_fw_is_functional (the in-place triple loop = the functional recurrence; panics iff some node has no remote), "
              "c30_fw_shortest (for EVERY finite graph the computed distance is the length of a shortest walk, 2n with a nil next hop iff unreachable), "
              "c30_next_hop_descends (next hop = neighbour through the recorded port, exactly one step closer), c30_route_loop_free_shortest "
-             "(following the tables reaches every reachable node in dist hops, never repeating a node, and no walk is shorter), c30_mesh_manhattan "
+             "(following the tables reaches every reachable node in dist hops, never repeating a node, and no walk is shorter), c30_tables_reach_every_device "
+             "(for every sequence of connector calls leaving all switches connected to all devices EstablishRoute does not panic and walking the switches' tables "
+             "port by port reaches the device after exactly dist switches, none twice), c30_mesh_manhattan "
              "(dimension-order routing stays in the grid and arrives after exactly Manhattan-distance hops), c30_reuse_equals_fresh (after fix 45fd431d a "
              "reused connector computes the routes of a fresh one, for every history), c30_reuse_old_refuted (pre-fix regression). The model is compared "
              "with the real routing tables, the real wiring and real hop-by-hop walks on every run.",
